@@ -209,8 +209,11 @@ class Gen:
                 else:
                     ops.append(["const", rng.choice([1, 2, 3])])
             elif k < 0.85 + self.p_raise:
-                ops.append(["raise", rng.randrange(8) if rng.random() > self.p_base_exc
-                            else 8 + rng.randrange(4)])
+                e = rng.randrange(8) if rng.random() > self.p_base_exc else 8 + rng.randrange(4)
+                if ps and rng.random() < 0.5:
+                    ops.append(["raiseif", rng.choice(KEYS), e])    # fails for some arguments only
+                else:
+                    ops.append(["raise", e])
                 uses_stmt = True
             elif k < 0.85 + self.p_raise + self.p_none:
                 ops.append(["none"])
